@@ -64,14 +64,14 @@ Definition VRead (head_len : N) (r : rres) : V :=
 (* ---- encoder-level scripts *)
 Record encst := mkE {
   e_codec : codec;
-  e_first : option reqctx;         (* the request the response answers: first decoded *)
+  e_first : option reqctx;         (* the request the response answers: the one decoded last *)
   e_head : option (N * head);      (* status, head of the (last) item *)
   e_after : bytes }.               (* bytes after that head *)
 
 Definition enc_step (s : encst) (o : eop) : encst * V :=
   match o with
   | EDecode r =>
-      (mkE (codec_decode (e_codec s) r) (match e_first s with None => Some r | x => x end) (e_head s) (e_after s),
+      (mkE (codec_decode (e_codec s) r) (Some r) (e_head s) (e_after s),
        VT "dec" [])
   | EItem r sz =>
       let '(c, h) := codec_encode_item (e_codec s) r sz in
